@@ -189,3 +189,9 @@ def replay(ctx, doc):
 def probe_known(ctx, finding):
     sc, r, c = _one(finding["replay"])
     return bool(c) and classify(sc.name, finding["replay"]["cut"], r, c) == finding["signature"]
+
+
+# the long-lived process: the same probe session after earlier sessions of the same server (props/history.py)
+from props import history as _history  # noqa: E402
+
+correspondence, search, replay = _history.attach(PID, correspondence, search, replay, pasts=None)
